@@ -118,12 +118,13 @@ static void h_req(coap_resource_t *r, coap_session_t *s, const coap_pdu_t *req, 
     coap_pdu_set_code(resp, COAP_RESPONSE_CODE_CHANGED);
   if (l2 >= 0 && coap_pdu_get_code(resp) != COAP_RESPONSE_CODE_CONTINUE) {
     struct { int x; uint8_t *d; } *h = malloc(sizeof(*h));
-    h->x = ++srv_serial;
+    int serial = ++srv_serial;
+    h->x = serial;
     h->d = mkbody(b2, (size_t)l2);
     fprintf(sim_trace, "{\"e\":\"SrvBody\",\"x\":%d,\"serial\":%d,\"bid\":%d,\"len\":%d}\n", x, h->x, b2, l2);
     if (!coap_add_data_large_response(r, s, req, resp, q, COAP_MEDIATYPE_APPLICATION_OCTET_STREAM, -1, 0, (size_t)l2, h->d,
                                       rel_server, h))
-      fprintf(sim_trace, "{\"e\":\"SrvBodyFailed\",\"serial\":%d}\n", h->x);
+      fprintf(sim_trace, "{\"e\":\"SrvBodyFailed\",\"serial\":%d}\n", serial);
   }
 }
 
@@ -147,11 +148,11 @@ static coap_response_t h_resp(coap_session_t *s, const coap_pdu_t *sent, const c
 }
 
 static void h_nack(coap_session_t *s, const coap_pdu_t *sent, const coap_nack_reason_t reason, const coap_mid_t mid) {
-  coap_bin_const_t t = coap_pdu_get_token(sent);
   (void)s; (void)mid;
   if (in_teardown) return;
   fprintf(sim_trace, "{\"e\":\"Nack\",\"t\":%llu,\"reason\":%d,\"tok\":", (unsigned long long)sim_now, (int)reason);
-  arr(t.s, t.length <= 8 ? t.length : 8);
+  if (sent) { coap_bin_const_t t = coap_pdu_get_token(sent); arr(t.s, t.length <= 8 ? t.length : 8); }
+  else fputs("[-1]", sim_trace);        /* a Reset that matched nothing queued is reported without a PDU */
   fputs("}\n", sim_trace);
 }
 
@@ -192,8 +193,8 @@ static void on_tx(int node, coap_session_t *s, const sim_dgram_t *dg, sim_verdic
   if (i < dg->len && d[i] == 0xff) { pn = dg->len - i - 1; i++; }
   if (code >= 1 && code <= 31 && b1[0] >= 0) poff = (size_t)b1[0] << (b1[2] + 4);
   if (code >= 64 && b2[0] >= 0) poff = (size_t)b2[0] << (b2[2] + 4);
-  fprintf(sim_trace, "{\"e\":\"Tx\",\"t\":%llu,\"i\":%d,\"node\":\"%s\",\"len\":%zu,\"mtu\":%u,\"ty\":%d,\"code\":%d,\"mid\":%d,\"tok\":",
-          (unsigned long long)sim_now, idx, (s && s->context == cctx) ? "c" : "s", dg->len, s ? s->mtu : 0, ty, code, mid);
+  fprintf(sim_trace, "{\"e\":\"Wire\",\"t\":%llu,\"i\":%d,\"node\":\"%s\",\"len\":%zu,\"mtu\":%u,\"ty\":%d,\"code\":%d,\"mid\":%d,\"tok\":",
+          (unsigned long long)sim_now, idx, (s && s->context == cctx) ? "c" : "s", dg->len, s ? (unsigned)s->mtu : 0u, ty, code, mid);
   arr(d + 4, (size_t)tkl <= 8 ? (size_t)tkl : 0);
   fprintf(sim_trace, ",\"b1\":[%d,%d,%d],\"b2\":[%d,%d,%d],\"s1\":%d,\"s2\":%d,\"pn\":%zu,\"pb\":%d,\"rtag\":", b1[0], b1[1], b1[2],
           b2[0], b2[1], b2[2], s1, s2, pn, match(d + i, pn, poff));
@@ -322,6 +323,7 @@ int main(int argc, char **argv) {
   coap_set_prng(prng);
   sim_hooks.on_tx = on_tx;
   sim_trace_io = 0;
+  sim_trace_dg = 0;
   while (fgets(line, sizeof(line), in)) {
     char *p;
     if (line[0] == 'X') {
